@@ -20,6 +20,7 @@ byte written to the ULA so far.
 import ZxVerif.Lemmas.VideoBusBorder
 import ZxVerif.Lemmas.Z80Closed
 import ZxVerif.Props.C09
+import ZxVerif.Props.C08Sys
 namespace ZxVerif.C09Sys
 open ZxVerif.Z80 ZxVerif.Video
 
@@ -130,6 +131,33 @@ theorem reported_colour_every_program (m : Machine) (inp : Nat → BitVec 8) (v 
   exact g.colour
 
 /-! Non-vacuity -/
+
+/-- **The statements above do say something: a program that completes frames.** The idle power-on
+machine (all-zero memory, interrupts disabled: NOPs for ever, see
+`C08Sys.idle_machine_delivers_decoded_frames`) has completed a frame after 17727 instructions;
+it never writes to the ULA, so `frame_matches_writes_every_program` applies with an empty write
+list and says that every border pixel handed to the host shows the colour the beam carried since
+power-on (white), while the reported colour is still the power-on black. -/
+theorem idle_machine_border (m : Machine) (inp : Nat → BitVec 8) (v : Variant) (s : Cpu)
+    (h1 : s.iff1 = false) (h2 : s.skipInt = false) (h3 : s.activePrefix = .none) (n : Nat) (hn : 17727 ≤ n)
+    (q : Nat) (hq : q < 76800) (d : Px) :
+    let z := (Z80.run v n (s, VBus.new m inp)).2
+    1 ≤ z.ctl.passedFrames ∧ z.frameStart.border.buf.getD q d = pxCode 7 false ∧ z.ctl.borderColor = 0 := by
+  intro z
+  obtain ⟨hpf, _, _⟩ := C08Sys.idle_machine_delivers_decoded_frames m inp v s h1 h2 h3 n hn 0 0 (by decide) (by decide) d
+  obtain ⟨hi, _⟩ := idle_run m v n s _ (Idle.new m inp s h1 h2 h3)
+  obtain ⟨⟨c, k1, k2, _⟩, _⟩ := frame_matches_writes_every_program m inp v n s q hq d hpf
+  refine ⟨hpf, ?_, ?_⟩
+  · show z.frameStart.border.buf.getD q d = _
+    rw [k2]
+    rw [hi.dnoUla, hi.dcol] at k1
+    have : c = 7 := (Option.some.inj k1).symm
+    rw [this]
+  · have g : BGood m z := program_keeps_good m v n s _ (BGood.new m inp)
+    have hh : z.ulaHist = [] := hi.hist
+    show z.ctl.borderColor = 0
+    rw [g.colour, hh]
+    rfl
 
 /-- the power-on bus state of either machine has the invariants -/
 example : BGood .k48 (VBus.new .k48 (fun _ => 0xFF)) ∧ BGood .k128 (VBus.new .k128 (fun _ => 0)) :=
